@@ -447,3 +447,77 @@ def run_case(ctx, case):
             return
         check_result(ctx, case, op, f, None, x, nx, r, eps, "eig", None if rm is None else rm, None, full, list(shp))
         return
+
+
+# =============================================================================== correspondence with the Lean model (main session)
+def _corr_cases(rng, tier):
+    from core import gen_tensor
+    n = {"quick": 120, "thorough": 2000, "search": 0}[tier]
+    out = []
+    for _ in range(n):
+        N = rng.choice([2, 3, 3, 4])
+        shape = [rng.randint(2, 4) for _ in range(N)]
+        out.append({"kind": "corr", "t": gen_tensor(rng, shape, rmax=4, stream="float").to_json(),
+                    "eps": 10 ** rng.uniform(-4, -0.3), "op": rng.choice(["round_tt", "round_tucker", "round"]),
+                    "rmax": rng.choice([None, None, 1, 2, 3])})
+    return out
+
+
+_orig_cases = cases
+_orig_run_case = run_case
+
+
+def cases(rng, tier):  # noqa: F811
+    return _orig_cases(rng, tier) + _corr_cases(rng, tier)
+
+
+def run_case(ctx, case):  # noqa: F811
+    if case.get("kind") != "corr":
+        return _orig_run_case(ctx, case)
+    import numpy as np, torch
+    from core import PT, q, safe
+    t = PT.from_json(case["t"])
+    ctx.case(("corr", case["op"], t.sig(), case["rmax"]), True,
+             {"op": "model correspondence: every rank chosen inside %s vs rankSelect on the recorded singular values" % case["op"],
+              "t": t.describe(), "eps": case["eps"], "rmax": case["rmax"]})
+    ctx.count("corr:" + case["op"])
+    if not (getattr(ctx, "use_model", False) and not getattr(ctx, "search_only", False)):
+        return
+    calls = []
+    orig_tsvd, orig_svd = tn.truncated_svd, torch.linalg.svd
+    last_S = []
+
+    def svd_w(A, *a, **k):
+        out = orig_svd(A, *a, **k); last_S.append(out[1].detach().clone()); return out
+
+    def tsvd_w(M, delta=None, eps=None, rmax=None, **kw):
+        n0 = len(last_S)
+        left, right = orig_tsvd(M, delta=delta, eps=eps, rmax=rmax, **kw)
+        d = delta if delta is not None else (eps * torch.norm(M).item() if eps is not None else 0)
+        d = float(d)
+        if len(last_S) > n0:
+            calls.append((last_S[n0], d, rmax, left.shape[-1]))
+        return left, right
+    tn.truncated_svd, torch.linalg.svd = tsvd_w, svd_w
+    try:
+        tt = t.to_tn()
+        kw = {} if case["rmax"] is None else {"rmax": case["rmax"]}
+        r = safe(lambda: getattr(tt, case["op"])(case["eps"], **kw))
+    finally:
+        tn.truncated_svd, torch.linalg.svd = orig_tsvd, orig_svd
+    if r[0] == "err":
+        ctx.oracle("%s raised %s: %s" % (case["op"], r[1], r[2]), case); return
+    ctx.count("corr:truncated_svd calls", len(calls))
+    for S, d, rmax, rank in calls:
+        if float(S[0]) < 1e-13:
+            ctx.count("skipped:zero matrix special case"); continue
+        S2 = S ** 2
+        d2 = d ** 2
+        cs = torch.cumsum(torch.flip(S2, [0]), 0).numpy()
+        if d2 > 0 and np.any(np.abs(cs - d2) <= 1e-12 * max(1.0, float(cs[-1]))):
+            ctx.count("discarded:near-tie"); continue
+        rm = rmax if rmax is not None else 2147483647
+        toks = ctx.drv().call("rank_select %d %s %s %d" % (len(S2), " ".join(q(v) for v in S2.numpy()), q(d2), rm))
+        if toks[0] != "ok" or int(toks[2]) != rank:
+            ctx.corr("%s: a truncated_svd call chose rank %d, the model's rankSelect gives %s (delta^2=%g, rmax=%s)" % (case["op"], rank, toks[2:3], d2, rmax), case)
+            return
